@@ -10,8 +10,8 @@ VERIF = os.path.dirname(os.path.dirname(os.path.abspath(__file__)))
 REPO = os.environ.get('VERIF_REPO', '/repo')
 SPEC = os.path.join(VERIF, 'spec')
 MC = os.path.join(SPEC, 'mc')
-EVID = os.path.join(VERIF, 'evidence')
-REPLAYS = os.path.join(VERIF, 'replays')
+EVID = os.environ.get('VERIF_EVID', os.path.join(VERIF, 'evidence'))          # (redirected when checks run against a seeded change)
+REPLAYS = os.environ.get('VERIF_REPLAYS', os.path.join(VERIF, 'replays'))
 LB = 15
 BASE = 1 << LB
 
